@@ -223,7 +223,9 @@ class _P:
             if t[0] == 'u':
                 raise SyntaxErr('operand-expected:unary')
             if t[0] == 'h':
-                raise SyntaxErr('operand-expected:exprsingle')
+                # if/for/let/some/every in operand position: not derivable, but these are not operators of the
+                # property's operator table - whether the parser must reject them is not decided here
+                raise SyntaxErr('undecided:operand-expected:exprsingle')
             raise SyntaxErr('operand-expected:' + str(lvl))
         self.i += 1
         posts = []
